@@ -48,20 +48,63 @@ def gen_rows(rng, n, d):
     return [[js(cc.dy(rng)) for _ in range(d)] for _ in range(n)]
 
 
+FORMS = ["def"] * 6 + ["lambda", "method", "object", "kwonly"]
+
+
 def gen_fn(rng, name, avail, outdim, deg=2, allow_default=True):
-    """a user function over a random non-empty subset of the available named vectors, random order"""
+    """a user function over a random non-empty subset of the available named vectors, in random order, with
+    0-3 declared defaults of DIFFERENT values that nobody supplies, possibly one defaulted argument whose name
+    IS supplied (the supplied value must win), declared as def / lambda / bound method / callable object /
+    with keyword-only parameters"""
     k = rng.randint(1, min(3, len(avail)))
     chosen = rng.sample(avail, k)
     params = [n for n, _ in chosen]
     sv = scalar_vars(chosen)
     defaults = []
-    if allow_default and rng.random() < 0.3:
-        dn = "a" if name != "resid" else "c0"
-        params.append(dn)
-        defaults.append([dn, [js(cc.dy(rng, 1, 6, 2))]])
-        sv = sv + [(dn, 0)]
+    if allow_default:
+        rest = [a for a in avail if a not in chosen and a[1] == 1]
+        if rest and rng.random() < 0.25:
+            # e.g. `def g(t, x=0.5)` on points that contain x: the default is NOT used
+            nm = rng.choice(rest)[0]
+            params.append(nm)
+            defaults.append([nm, [js(cc.dy(rng, 1, 6, 2))]])
+            sv = sv + [(nm, 0)]
+        nd = rng.choice([0, 0, 0, 1, 2, 2, 3])
+        base = ["a", "b", "c"] if name != "resid" else ["c0", "c1", "c2"]
+        vals = rng.sample([F(m, 2) for m in range(1, 9)], nd)
+        for dn, v in zip(base, vals):
+            params.append(dn)
+            defaults.append([dn, [js(v)]])
+            sv = sv + [(dn, 0)]
     body = [pe_to_json(cc.gen_pe(rng, sv, deg)) for _ in range(outdim)]
-    return dict(name=name, params=params, defaults=defaults, body=body)
+    for dn, _ in defaults[-2:]:
+        # make sure the declared defaults matter
+        body[0] = ["+", body[0], ["*", ["c", js(cc.dy(rng, 1, 4, 2))], ["v", dn, 0]]]
+    form = rng.choice(FORMS)
+    kwonly = 0
+    if form == "kwonly":
+        form = "def"
+        kwonly = rng.randint(1, len(params) - 1) if (not defaults and len(params) >= 2) else 0
+    return dict(name=name, params=params, defaults=defaults, body=body, form=form, kwonly=kwonly)
+
+
+def make_defaulted(rng, fn, name):
+    """turn `name` (dimension 1) into a DEFAULTED argument of the function and make the body use it"""
+    dn = [n for n, _ in fn["defaults"]]
+    if name in dn:
+        return
+    if name in fn["params"]:
+        fn["params"].remove(name)
+    fn["params"].insert(len(fn["params"]) - len(fn["defaults"]), name)
+    fn["defaults"].insert(0, [name, [js(cc.dy(rng, 1, 6, 2))]])
+    fn["kwonly"] = 0
+    fn["body"][0] = ["+", fn["body"][0], ["*", ["c", js(cc.dy(rng, 1, 4, 1))], ["v", name, 0]]]
+
+
+def gen_const(rng, name, outdim):
+    """a data 'function' that is a constant tensor (one row, broadcast over the points)"""
+    return dict(name=name, params=[], defaults=[], body=[pe_to_json(('c', cc.dy(rng))) for _ in range(outdim)],
+                form="const", kwonly=0)
 
 
 def gen_sm(ctx, rng):
@@ -78,7 +121,9 @@ def gen_sm(ctx, rng):
         param = [[pn, [js(cc.dy(rng)) for _ in range(rng.randint(1, 2))]]]
     data = []
     for dn in rng.sample(DATA, rng.choice([0, 1, 1, 2])):
-        data.append(gen_fn(rng, dn, space, rng.randint(1, 2)))
+        d = gen_const(rng, dn, rng.randint(1, 2)) if rng.random() < 0.1 else gen_fn(rng, dn, space, rng.randint(1, 2))
+        d["wrap"] = rng.random() < 0.3           # handed over as a UserFunction object instead of a plain callable
+        data.append(d)
     static = rng.random() < 0.45
     interval = None
     if static and rng.random() < 0.3:
@@ -93,9 +138,12 @@ def gen_sm(ctx, rng):
         avail += out_space
     resid = gen_fn(rng, "resid", avail, rng.randint(1, 3), deg=2)
     varying = [a[0] for a in avail if a[0] not in [p[0] for p in param]]
-    if not set(resid["params"]) & set(varying):
-        # a residual of parameters only would be a 1-row tensor (broadcasting), not a function of the points
-        resid["params"].insert(0, rng.choice(varying))
+    const_names = [d["name"] for d in data if d.get("form") == "const"]
+    if not (set(resid["params"]) - set(const_names)) & set(varying) and (cls in ("single",) or rng.random() < 0.7):
+        # a residual of parameters/constants only returns a 1-row tensor (broadcasting): legal, and the mean /
+        # max of one row is the mean / max over the points — kept for the fixed-reduction classes, avoided
+        # for custom reductions (torch.sum of one row is not the sum over the points)
+        resid["params"].insert(0, rng.choice([v for v in varying if v not in const_names]))
     if cls != "hpm" and rng.random() < 0.5:
         # derivatives of outputs w.r.t. named coordinates: needs the output and the coordinate in the signature
         o = rng.choice(out_space)
@@ -231,7 +279,13 @@ def build_fn(C, spec, obs_list, ders=(), out_space=None, in_space=None, record_o
             record_out.append(tensor_rows(out))
         return out
     defaults = [(n, float(F(v[0]))) for n, v in spec.get("defaults", [])]
-    return mk_user_fn(spec["name"], spec["params"], defaults, impl)
+    if spec.get("form") == "const":
+        fn = torch.tensor([[float(F(b[1])) for b in spec["body"]]], dtype=torch.float64)
+    else:
+        fn = mk_user_fn(spec["name"], spec["params"], defaults, impl, form=spec.get("form", "def"), kwonly=spec.get("kwonly", 0))
+    if spec.get("wrap"):
+        fn = C["tp"].utils.UserFunction(fn)
+    return fn
 
 
 def _sq(tp, torch):
@@ -302,8 +356,10 @@ def run_sm(case):
         try:
             loss = cond.forward()
             out["losses"].append(float(loss))
+            out.setdefault("f32", []).append(loss.dtype == torch.float32)
         except Exception as e:  # noqa
             out["losses"].append(None)
+            out.setdefault("f32", []).append(False)
             out["errors"].append((k, classify_exc(e)))
         out["points"].append(rec.calls[before:])
         if len(obs.resid_args) == n_obs:
@@ -439,6 +495,18 @@ def expected_args_sm(case, p):
 TOL = dict(rel=1e-9, abs=1e-12)
 
 
+def count_shapes(rep, fns):
+    """input-distribution histogram of the signature shapes of the user functions of a case"""
+    for f in fns:
+        if f is None:
+            continue
+        nd = len(f.get("defaults", []))
+        rep.count(f"fn:declared-defaults={min(nd, 3)}{'+' if nd > 3 else ''}")
+        rep.count("fn:form=" + ("kwonly" if f.get("kwonly") else f.get("form", "def")))
+        if f.get("wrap"):
+            rep.count("fn:handed-over-as-UserFunction")
+
+
 def judge_sm(rep, case, res, replies):
     cls = case["cls"]
     rep.count("sm:" + cls)
@@ -449,8 +517,7 @@ def judge_sm(rep, case, res, replies):
     rep.count("with-parameter" if case["param"] else "no-parameter")
     rep.count("with-derivatives" if case["ders"] else "no-derivatives")
     rep.count("space-order-permuted" if case["net"]["in"] != case["space"] else "space-order-same")
-    if case["resid"]["defaults"] or any(d["defaults"] for d in case["data"]):
-        rep.count("default-args")
+    count_shapes(rep, [case["resid"]] + case["data"])
     if res["errors"]:
         for where, what in res["errors"]:
             rep.fail(f"{cls} condition raised at {where}: {what}", case)
@@ -474,6 +541,10 @@ def judge_sm(rep, case, res, replies):
         p = pts[0]
         n = len(p["rows"])
         loss = res["losses"][k]
+        if not f32 and res.get("f32", [False] * (k + 1))[k]:
+            # learnable parameters are float32 in the library: a residual of parameters only gives a float32 loss
+            ltol = (2e-5, 1e-6)
+            rep.count("sm:float32-loss(residual of float32 inputs only)")
         args, out = res["resid_args"][k], res["resid_out"][k]
         if args is None:
             rep.fail(f"forward call {k}: the residual function was never called", case)
@@ -507,7 +578,7 @@ def judge_sm(rep, case, res, replies):
             continue
         if not close(loss, float(m["loss"]), *ltol):
             rep.disagree("sm loss: drivers/C04.lean `sm` vs Condition.forward()", dict(case=case, call=k), loss, str(m["loss"]))
-        if not rows_close(out, m["res"], *atol):
+        if not rows_close(expand(out, n), m["res"], *atol):
             rep.disagree("sm residual table", dict(case=case, call=k), [[str(v) for v in r] for r in out], [[str(v) for v in r] for r in m["res"]])
         names = case["resid"]["params"] + [d[0] for d in case["ders"]]
         for i in range(n):
@@ -594,6 +665,7 @@ def judge_data(rep, case, res, replies):
     rep.count(f"data:root={case['root']}")
     if case["constrain"]:
         rep.count("data:constrain_fn")
+        count_shapes(rep, [case["constrain"]])
     for where, what in res["errors"]:
         rep.fail(f"data condition raised: {what}", case)
     if res["errors"]:
@@ -679,6 +751,11 @@ def gen_per(ctx, rng):
         pn = rng.choice(PARS)
         param = [[pn, [js(cc.dy(rng)) for _ in range(rng.randint(1, 2))]]]
     data = [gen_fn(rng, dn, full, rng.randint(1, 2)) for dn in rng.sample(DATA, rng.choice([0, 1, 1, 2]))]
+    for d in data:
+        if rng.random() < 0.4:
+            # `def g(y, x=0.5)` with x the PERIODIC variable: the end point is supplied, the default never used
+            make_defaulted(rng, d, pv)
+        d["wrap"] = rng.random() < 0.25
     n = rng.choice([1, 2, 3, 4]) if bspace else 1
     static = bool(bspace) and rng.random() < 0.5
     calls = rng.choice([1, 2])
@@ -829,6 +906,9 @@ def expected_args_per(case, rows):
 def judge_per(rep, case, res, replies):
     rep.count("per:" + ("static" if case["static"] else "empty-sampler" if not case["bspace"] else "non-static"))
     rep.count(f"per:data-fns={len(case['data'])}")
+    count_shapes(rep, [case["resid"]] + case["data"])
+    if any(case["pv"] in [n for n, _ in d["defaults"]] for d in case["data"]):
+        rep.count("per:data-fn-with-defaulted-periodic-variable" + (":static" if case["static"] else ""))
     if res["errors"]:
         for where, what in res["errors"]:
             rep.fail(f"periodic condition raised at {where}: {what}", case)
@@ -1035,6 +1115,7 @@ def judge_don(rep, case, res, replies):
     rep.count("don:" + ("static" if case["static"] else "non-static"))
     rep.count("don:uses-function-set-output" if case["use_f"] else "don:no-function-output")
     rep.count(f"don:functions={case['F']}")
+    count_shapes(rep, [case["resid"], case["fn"]] + case["data"])
     if res["errors"]:
         for where, what in res["errors"]:
             rep.fail(f"PIDeepONetCondition raised at {where}: {what}", case)
